@@ -354,6 +354,17 @@ func runC07(r *Rand, tier string, o *Out) {
 	add("val", append(append(le(1), "r"...), le(0xFFFFFFFF)...), "corpus")
 	add("cap", le(0xFFFFFFFF), "corpus")
 	add("msg", wireOf(qnet.Header{Magic: qnet.Magic, Type: 1, Size: 0xFFFFFFFF}, nil), "corpus")
+	// lists of elements of a fixed size announcing millions of them, with little or nothing behind the
+	// count: through the signature-driven reader, inside a value, inside typed data
+	for _, e := range []string{"c", "C", "w", "W", "i", "I", "l", "L", "f", "d", "b"} {
+		for _, cnt := range []uint32{0x00800000, 0x7FFFFFFF, 0xFFFFFFFF} {
+			data := append(le(cnt), make([]byte, []int{0, 16}[int(cnt>>31)^1&1])...)
+			add("rd:["+e+"]", data, "fixed-size-elements")
+			add("val", append(append(le(3), ("["+e+"]")...), data...), "fixed-size-elements")
+		}
+		add("rd:{s["+e+"]}", append(append(le(1), le(0)...), le(0x00800000)...), "fixed-size-elements")
+		add("val", append(append(append(le(3), "[m]"...), le(1)...), append(append(le(3), ("["+e+"]")...), le(0x00800000)...)...), "fixed-size-elements")
+	}
 
 	rounds := 10
 	if tier == "thorough" {
